@@ -174,3 +174,66 @@ pub fn encoder_relations(args: &Args, s: &mut Summary) {
         }
     }
 }
+
+/// C04 trace: classify every line of the encoder's output and record the parser's verdict.
+pub fn encoder_trace(args: &Args, s: &mut Summary) {
+    use rosu_map::{DecodeBeatmap, DecodeState};
+    let trace = args.opt("trace").expect("--trace");
+    let thorough = args.opt("tier") == Some("thorough");
+    let mut rng = Rng::new(args.seed);
+    let files = corpus(&mut rng, if thorough { 300 } else { 60 }, true);
+    let mut out: Vec<serde_json::Value> = vec![];
+    for (name, text, _) in &files {
+        if text.len() > 100_000 && !thorough {
+            continue;
+        }
+        let r = guarded(&format!("encoder trace {name}"), || roundtrip(text));
+        let Ok(Ok((_, enc, _))) = r else {
+            s.mismatch("roundtrip-step-failed", json!({"file": name}));
+            continue;
+        };
+        s.cases += 1;
+        s.nontrivial_key(name);
+        out.push(json!({"ev": "Begin", "file": name}));
+        let mut st = <Beatmap as DecodeBeatmap>::State::create(14);
+        let mut section: Option<String> = None;
+        for (n, raw) in enc.split('\n').enumerate() {
+            let line = raw.trim_end();
+            if n == 0 && line.starts_with("osu file format v") {
+                out.push(json!({"ev": "Version"}));
+                continue;
+            }
+            if line.is_empty() {
+                // the text ends with a newline: the final empty piece is not a line
+                if n + 1 == enc.split('\n').count() {
+                    continue;
+                }
+                out.push(json!({"ev": "Blank"}));
+                continue;
+            }
+            if line.starts_with('[') && line.ends_with(']') && crate::framing::SECTIONS.contains(&&line[1..line.len() - 1]) {
+                section = Some(line[1..line.len() - 1].to_string());
+                out.push(json!({"ev": "Header", "s": section}));
+                continue;
+            }
+            let sec = section.clone().unwrap_or_else(|| "none".into());
+            let ok = match sec.as_str() {
+                "General" => Beatmap::parse_general(&mut st, line).is_ok(),
+                "Editor" => Beatmap::parse_editor(&mut st, line).is_ok(),
+                "Metadata" => Beatmap::parse_metadata(&mut st, line).is_ok(),
+                "Difficulty" => Beatmap::parse_difficulty(&mut st, line).is_ok(),
+                "Events" => Beatmap::parse_events(&mut st, line).is_ok(),
+                "TimingPoints" => Beatmap::parse_timing_points(&mut st, line).is_ok(),
+                "Colours" => Beatmap::parse_colors(&mut st, line).is_ok(),
+                "HitObjects" => Beatmap::parse_hit_objects(&mut st, line).is_ok(),
+                _ => false,
+            };
+            s.checks += 1;
+            out.push(json!({"ev": "Record", "s": sec, "accepted": ok && !line.trim_start().starts_with("//"), "line": if ok { "" } else { line }}));
+        }
+        out.push(json!({"ev": "End"}));
+    }
+    s.sample(json!({"first_events": out.iter().take(8).cloned().collect::<Vec<_>>()}));
+    s.extra.insert("events".into(), json!(out.len()));
+    write_ndjson(trace, &out);
+}
